@@ -182,8 +182,16 @@ func (c *Ctx) binop(op token.Token, xt types.Type, x, y Value, yt types.Type) Va
 	return nil
 }
 
+func isFloat(t types.Type) bool {
+	b, ok := t.Underlying().(*types.Basic)
+	return ok && b.Info()&types.IsFloat != 0
+}
+
 func (c *Ctx) convert(from, to types.Type, v Value) Value {
 	fu, tu := from.Underlying(), to.Underlying()
+	if isFloat(from) && isFloat(to) {
+		return v // floats are opaque values: copied, never computed on
+	}
 	if isInteger(from) && isInteger(to) {
 		_, fs := intWidth(from)
 		tw, _ := intWidth(to)
